@@ -231,6 +231,10 @@ class Interp:
         if isinstance(s, ast.Assert):
             t = self._eval(s.test, st, act)
             self._emit("assert", st, s, act, test=t, stmt=s)
+            if t[0] == "call" and t[1] == "builtins.isinstance" and len(t[2]) == 2 \
+                    and t[2][1][0] == "classref" and t[2][0][0] in ("attr", "param"):
+                # `assert isinstance(x, C)`: x is a C from here on
+                self.assumed_types[t[2][0]] = t[2][1][1]
             tc = truth_const(t)
             if tc is False:
                 return None
